@@ -132,6 +132,8 @@ def judge(ck, inp, probe, outputs, build_ok, observed, ans):
     ck.count('sessions:%d' % len(observed))
     ck.count('runs-in-2+-files' if multi else 'runs-in-1-file')
     ck.count('builds:%d' % len(probe.builds))
+    most = max([len(o) for per in outputs for o in per if o] or [0])
+    ck.count('data-points-per-invocation:%s' % ('>20' if most > 20 else '=20' if most == 20 else '<20'))
     if any(r['profile'] for r in probe.runs):
         ck.count('has-profile-runs')
     ck.case(nontrivial_key=json.dumps([inp['cfg'], inp['specs'], inp['seed']], sort_keys=True, default=str)
